@@ -68,7 +68,10 @@ class Parser:
         self._load_runtime()
         self._tokens = Lex(input_string).tokens()
         self.next_token()
-        return self._script()
+        try:
+            return self._script()
+        except RecursionError:
+            return self.trigger_error('Nested too deeply.')
 
     def get_program(self):
         return self._code_gen.program
